@@ -108,10 +108,10 @@ func buildAkSchema(impl string, withSpare bool) *jsonapi.Schema {
 	// names that differ from the real ones by case only, registered first: other types altogether
 	must(s.AddType(*softType("AK", defMap{"upper": {Kind: "attr", K: "bool"}}, kindMap{})))
 	must(s.AddType(*softType("Ak2", defMap{"upper": {Kind: "attr", K: "bool"}}, kindMap{})))
-	if impl == "wrap" || impl == "wrap2" || impl == "wrapn" {
+	if impl == "wrap" || impl == "wrap2" || impl == "wrapn" || impl == "wrapid" {
 		// wrap2: the same type name over a struct whose fields are declared in the opposite order;
-		// wrapn: over a struct with fewer fields
-		typ, err := jsonapi.BuildType(reflect.New(structType("ak", akFields(impl), kindMap{Rev: impl == "wrap2"})).Interface())
+		// wrapn: over a struct with fewer fields; wrapid: over a struct whose ID is of a defined string type
+		typ, err := jsonapi.BuildType(reflect.New(structType("ak", akFields(impl), kindMap{Rev: impl == "wrap2", NamedID: impl == "wrapid"})).Interface())
 		must(err)
 		must(s.AddType(typ))
 		must(s.AddType(*softType("ak2", ak2Fields, kindMap{})))
@@ -221,7 +221,11 @@ func runRoundTrip(c rtCase) rtEvent {
 		if implOfRes == "softnf" {
 			implOfRes = "soft"
 		}
-		src := newRes(implOfRes, "ak", fields, kindMap{})
+		srcKM := kindMap{}
+		if implOfRes == "wrapid" {
+			implOfRes, srcKM = "wrap", kindMap{NamedID: true}
+		}
+		src := newRes(implOfRes, "ak", fields, srcKM)
 		if sr, ok := src.(*jsonapi.SoftResource); ok && c.Impl == "softnf" {
 			// a soft type declared by hand: its one-way relationships do not say where they start
 			// (Type.AddRel, Schema.AddType and Check take them as they are)
@@ -1158,7 +1162,7 @@ func remarshalSame(c payCase, out []byte) bool {
 func codecOtherModes(mode string, rng *rand.Rand, stt *stats, w *evWriter, n int, seed int64, gen string) {
 	switch mode {
 	case "roundtrip":
-		for _, impl := range []string{"soft", "softnf", "wrapn", "wrap", "wrapn"} { // the narrower struct first, and again after the full one
+		for _, impl := range []string{"soft", "softnf", "wrapn", "wrap", "wrapn", "wrapid"} { // the narrower struct first, and again after the full one; then a struct with an ID of a defined string type
 			for _, via := range []string{"resource", "document"} {
 				classes := []string{"zero", "nil"}
 				for t := 0; t < 3*3+3; t++ { // every rank of every table for all kinds at once, then mixed ranks
@@ -1595,6 +1599,14 @@ func codecOtherModes(mode string, rng *rand.Rand, stt *stats, w *evWriter, n int
 		// inside a collection): every member keeps its own type and values
 		colTypes := [][]string{{"ak2", "ak2", "ak3", "ak2"}, {"ak3", "ak2"}, {"ak2", "ak3", "ak3", "ak2", "ak"}, {"ak"},
 			{"ak3", "ak3"}, {"ak", "ak2", "ak", "ak3"}, {}}
+		// ... and long ones (8, 31, 32, 33, 64, 100, 257 members of the three types in turn)
+		for _, n := range []int{8, 31, 32, 33, 64, 100, 257} {
+			ts := make([]string, n)
+			for i := range ts {
+				ts[i] = []string{"ak2", "ak", "ak3", "ak2", "ak3"}[(i+n)%5]
+			}
+			colTypes = append(colTypes, ts)
+		}
 		for _, impl := range []string{"soft", "wrap"} {
 			for _, via := range []string{"collection", "document"} {
 				for _, ts := range colTypes {
@@ -1651,7 +1663,7 @@ func runColPayload(c colCase) colEvent {
 		case "ak3":
 			members = append(members, fmt.Sprintf(`{"type":"ak3","id":"r%d","attributes":{"t":"w%d","u":%d}}`, i, i, i+1))
 		default:
-			members = append(members, fmt.Sprintf(`{"type":"ak","id":"r%d","attributes":{"kstring":"k%d","kint8":%d}}`, i, i, i+1))
+			members = append(members, fmt.Sprintf(`{"type":"ak","id":"r%d","attributes":{"kstring":"k%d","kint8":%d}}`, i, i, i%100+1))
 		}
 	}
 	payload := "[" + strings.Join(members, ",") + "]"
@@ -1702,7 +1714,7 @@ func runColPayload(c colCase) colEvent {
 				u, _ := r.Get("u").(*uint)
 				ev.ValsSame = ev.ValsSame && r.Get("t") == fmt.Sprintf("w%d", i) && u != nil && *u == uint(i+1)
 			default:
-				ev.ValsSame = ev.ValsSame && r.Get("kstring") == fmt.Sprintf("k%d", i) && r.Get("kint8") == int8(i+1)
+				ev.ValsSame = ev.ValsSame && r.Get("kstring") == fmt.Sprintf("k%d", i) && r.Get("kint8") == int8(i%100+1)
 			}
 		}
 	})
